@@ -100,8 +100,10 @@ fn check_pair(ctx: &Ctx, lang: &str, language: &tree_sitter::Language, qsrc: &st
     // (1) captures vs matches
     {
         let (mut tm, mut tc) = (triples_of_matches(&base_m), triples_of_caps(&base_c));
-        // with quantifiers the capture stream also carries the early captures of superseded partial matches: compare as sets
-        if has_quantifier { tm.dedup(); tc.dedup(); }
+        // compared as sets: a capture shared by several matches (the root of a pattern whose child matches several nodes) is
+        // emitted once, and with quantifiers the early captures of superseded partial matches are emitted as well
+        let _ = has_quantifier;
+        tm.dedup(); tc.dedup();
         if tm != tc { v(res, "capture-stream-differs-from-match-stream", format!("matches give {:?}, captures give {:?}", tm, tc), json!({})); }
     }
     for w in base_c.windows(2) { if env.xt.nodes[w[0].node].start > env.xt.nodes[w[1].node].start {
@@ -156,22 +158,37 @@ fn check_pair(ctx: &Ctx, lang: &str, language: &tree_sitter::Language, qsrc: &st
         let mut c2 = QueryCursor::new();
         let mut got: Vec<CapRec> = vec![];
         let mut removed_id = None;
+        let mut removed_caps: Vec<(u32, usize)> = vec![];
         {
             let mut it = c2.captures(q, env.tree.root_node(), env.text);
             let mut pos = 0usize;
             while let Some((m, ci)) = it.next() {
                 let c = m.captures[*ci];
                 got.push(CapRec { pattern: m.pattern_index, match_id: m.id(), cap: c.index, node: env.idx(c.node) });
-                if pos == k { removed_id = Some(m.id()); m.remove(); }
+                if pos == k { removed_id = Some(m.id()); removed_caps = m.captures.iter().map(|c| (c.index, env.idx(c.node))).collect(); m.remove(); }
                 pos += 1;
                 if pos > 20000 { break; }
             }
         }
         res.transitions += 1;
         let rid = removed_id.unwrap();
-        let want: Vec<(usize, u32, usize)> = base_c.iter().enumerate().filter(|(i, c)| *i <= k || c.match_id != rid).map(|(_, c)| (c.pattern, c.cap, c.node)).collect();
         let gotv: Vec<(usize, u32, usize)> = got.iter().map(|c| (c.pattern, c.cap, c.node)).collect();
-        if want != gotv { v(res, "remove-match-changes-other-captures", format!("removing the match of capture #{} leaves {:?}, expected {:?}", k, gotv, want), json!({"k": k})); break; }
+        let basev: Vec<(usize, u32, usize)> = base_c.iter().map(|c| (c.pattern, c.cap, c.node)).collect();
+        // the stream up to and including position k is untouched
+        if gotv.len() <= k || gotv[..=k] != basev[..=k] { v(res, "remove-match-changes-earlier-captures", format!("removing at capture #{}: prefix differs", k), json!({"k": k})); break; }
+        // nothing of the removed match is delivered afterwards
+        // (match ids are shared by matches that were split from one state; the removed match is identified by id + its captures)
+        if got[k + 1..].iter().any(|c| c.match_id == rid && removed_caps.contains(&(c.cap, c.node))) { v(res, "removed-match-still-delivers-captures", format!("after removing match {} at capture #{} the stream still contains its captures: {:?}", rid, k, &got[k + 1..]), json!({"k": k})); break; }
+        // every capture of another match that the unmodified stream delivers after k is still delivered, and nothing new appears
+        let mut rest: Vec<(usize, u32, usize)> = gotv[k + 1..].to_vec();
+        let mut ok = true;
+        for (i, c) in base_c.iter().enumerate().skip(k + 1) {
+            if c.match_id == rid { continue; }
+            match rest.iter().position(|x| *x == basev[i]) { Some(p) => { rest.remove(p); } None => { ok = false; break; } }
+        }
+        if !ok { v(res, "remove-match-changes-other-captures", format!("removing the match of capture #{} leaves {:?}; the unmodified stream is {:?}", k, gotv, basev), json!({"k": k})); break; }
+        let origrest: Vec<(usize, u32, usize)> = basev[k + 1..].to_vec();
+        if rest.iter().any(|x| !origrest.contains(x)) { v(res, "remove-match-invents-captures", format!("removing at #{}: extra captures {:?}", k, rest), json!({"k": k})); break; }
     }
     // (2) ranges
     let len = env.text.len();
@@ -204,8 +221,10 @@ fn check_pair(ctx: &Ctx, lang: &str, language: &tree_sitter::Language, qsrc: &st
                 if points { c3.set_containing_point_range(lt.point(a)..lt.point(b)); } else { c3.set_containing_byte_range(a..b); }
                 let gotc = env.matches(&mut c3, q);
                 res.transitions += 1;
-                let wantc: Vec<_> = base_m.iter().filter(|m| m.caps.iter().all(|c| { let n = &env.xt.nodes[c.1]; n.start >= a && n.end <= b })).cloned().collect();
-                if rooted && strip_ids(&wantc) != strip_ids(&gotc) { v(res, "containing-range-semantics", format!("{} containing range {}..{}: got {:?}, matches fully inside are {:?}", fpx, a, b, strip_ids(&gotc), strip_ids(&wantc)), json!({"range": [a, b], "points": points})); }
+                let on_edge = |m: &MatchRec| m.caps.iter().any(|c| { let n = &env.xt.nodes[c.1]; n.start == n.end && (n.start == a || n.start == b) });
+                let wantc: Vec<_> = base_m.iter().filter(|m| !on_edge(m) && m.caps.iter().all(|c| { let n = &env.xt.nodes[c.1]; n.start >= a && n.end <= b })).cloned().collect();
+                let gotc_cmp: Vec<_> = gotc.iter().filter(|m| !on_edge(m)).cloned().collect();
+                if rooted && strip_ids(&wantc) != strip_ids(&gotc_cmp) { v(res, "containing-range-semantics", format!("{} containing range {}..{}: got {:?}, matches fully inside are {:?}", fpx, a, b, strip_ids(&gotc), strip_ids(&wantc)), json!({"range": [a, b], "points": points})); }
                 for g in &gotc { if g.caps.iter().any(|c| { let n = &env.xt.nodes[c.1]; n.start < a || n.end > b }) { v(res, if wildcard_root_with_child { "containing-range-wildcard-root-parent-outside" } else { "containing-range-returns-outside-capture" }, format!("{} containing range {}..{}: {:?}", fpx, a, b, g), json!({"range": [a, b], "points": points})); break; } }
             }
             b += step;
@@ -302,7 +321,7 @@ pub fn worker(ctx: &Ctx, res: &mut ShardResult) {
         let other = Query::new(&info.language, if lname == "stmts" { "(number) @n (identifier) @i" } else { "(number) @n" }).unwrap();
         let mut parser = Parser::new();
         parser.set_language(&info.language).unwrap();
-        let k = if ctx.mini() { 0 } else if ctx.quick() { 1 } else { 2 };
+        let k = if ctx.mini() { 0 } else if ctx.quick() { 2 } else { 3 };
         let docs: Vec<Vec<u8>> = crate::docs::docs(&z, k).into_iter().filter(|d| d.len() <= 60).collect();
         for d in &docs {
             let tree = parser.parse(d, None).unwrap();
